@@ -117,7 +117,10 @@ func (wal *BaseWAL) OnStart() error {
 	size, err := wal.group.Head.Size()
 	if err != nil {
 		return err
-	} else if size == 0 {
+	} else if size == 0 && wal.group.ReadGroupInfo().TotalSize == 0 {
+		// a brand-new log only: an empty head behind rotated files is what a crash right
+		// after a rotation leaves, and a second #ENDHEIGHT 0 there would hide the first
+		// height's messages in the rotated files from SearchForEndHeight
 		if err := wal.WriteSync(EndHeightMessage{0}); err != nil {
 			return err
 		}
